@@ -94,6 +94,10 @@ fn sign(key: &ZKey, rrs: &[Rec]) -> Rec {
     let now = now_u32();
     sign_with(key, &key.zone, rrs, nlabels(rrs[0].owner()), now - 3600, now + 86400)
 }
+/// RFC 4034 3.1.5 with RFC 1982 arithmetic, written with 64-bit integers: now is not after the
+/// expiration and not before the inception; a comparison of values 2^31 apart is undefined = not valid.
+fn rfc1982_le(a: u32, b: u32) -> bool { let d = (b as u64 + (1u64 << 32) - a as u64) % (1u64 << 32); d < (1u64 << 31) }
+fn rfc1982_valid(now: u32, inc: u32, exp: u32) -> bool { rfc1982_le(now, exp) && rfc1982_le(inc, now) }
 fn bitmap(types: &[Rtype]) -> RtypeBitmap<Bytes> {
     let mut b = RtypeBitmap::<Bytes>::builder();
     for t in types { b.add(*t).unwrap(); }
@@ -555,6 +559,13 @@ fn ede_code(e: &Option<domain::base::opt::ExtendedError<Vec<u8>>>) -> u32 {
         "Found NSEC with DNAME or delegation while trying to proof non-existance" => 7,
         "NSEC is expanded from wildcard" => 8,
         "No NSEC3 proves non-existance" => 9,
+        "NSEC3 with too high iteration count" => if e.code() == domain::base::iana::ExtendedErrorCode::DNSSEC_BOGUS { 11 } else { 12 },
+        "NSEC3 with bad owner hash" => 13,
+        "NSEC3 for NODATA proves requested Rtype or CNAME" => 14,
+        "NSEC3 from apex for DS" => 15,
+        "NSEC3 from parent for non-DS rtype" => 16,
+        "Found NSEC3 with DNAME or delegation while trying to proof non-existance" => 17,
+        "NSEC3 with Opt-Out" => 18,
         "No NEC/NSEC3 proof for non-existance" => 10,
         _ => 99,
     }
@@ -665,8 +676,10 @@ fn make_groups(r: &mut Rng, w: &World, zi: usize, universe: &[N]) -> Vec<(RRset,
             RRset { sigs: vec![], rrs: vec![nrec] }
         } else if kind < 92 {
             // signature validity window relative to the wall clock (u32 order in the code)
-            let (inc, exp, ok) = match r.below(6) { 0 => (now - 7200, now - 3600, false), 1 => (now + 3600, now + 7200, false), 2 => (0, 0xFFFF_FFFF, true),
-                3 => (now - 100, now + 100, true), 4 => (now.wrapping_add(0x8000_0000), now + 100, false), _ => (now - 100, 5, false) };
+            let (inc, exp) = match r.below(8) { 0 => (now - 7200, now - 3600), 1 => (now + 3600, now + 7200), 2 => (0, 0xFFFF_FFFF),
+                3 => (now - 100, now + 100), 4 => (now.wrapping_add(0x8000_0000), now + 100), 5 => (now - 100, 5),
+                6 => (now.wrapping_sub(0x7FFF_0000), now.wrapping_add(0x7FFF_0000)), _ => (now - 100, now.wrapping_add(0x8000_1000)) };
+            let ok = rfc1982_valid(now, inc, exp);
             if !ok { v.secure = false; v.state = "Bogus"; }
             RRset { sigs: vec![sign_with(key, &key.zone, &[nrec.clone()], ol, inc, exp)], rrs: vec![nrec] }
         } else {
@@ -974,6 +987,374 @@ fn main() {
                 match catch_mut(|| vh::nsec_for_nodata_wildcard(&target, &mut groups, qt, &signer)) {
                     Ok((s, e)) => { let nd = matches!(s, vh::NsecState::NoData); out.case(&c, &format!("{} {}", if nd { "NoData" } else { "Nothing" }, ede_code(&e)), nd, "nsec_for_nodata_wildcard"); }
                     Err(e) => { out.case(&c, "Panic", true, "nsec_for_nodata_wildcard"); out.check(false, "panic_validator", &c, &e); }
+                }
+            }
+        }
+    }
+
+    // ---------------- (3c) signature validity times
+    {
+        // the comparison of check_sig (`ts_now <= expiration && ts_now >= inception` on Timestamps) for any clock value
+        let edge: [u32; 12] = [0, 1, 0x100, 0x10000, 0x7FFF_FFFF, 0x8000_0000, 0x8000_0001, 0xFFFF_F000, 0xFFFF_FFFF, 1_790_000_000, 0x7FFF_FF00, 0x8000_0100];
+        let corpus: [(u32, u32, u32); 4] = [(0x100, 0xFFFF_F000, 0x10000), (1_790_000_000, 0, 0xFFFF_FFFF), (0, 0, 0x8000_0000), (5, 0xFFFF_FFF0, 20)];
+        for i in 0..(2000 * scale as usize + corpus.len()) {
+            let (now, inc, exp) = if i < corpus.len() { corpus[i] } else {
+                let now = if r.chance(1, 2) { *r.pick(&edge) } else { r.u32() };
+                let d = |r: &mut Rng| match r.below(5) { 0 => r.below(4) as u32, 1 => 0x7FFF_FFFE + r.below(5) as u32, 2 => r.below(100_000) as u32, 3 => 0x8000_0000u32.wrapping_sub(r.below(3) as u32), _ => r.u32() };
+                (now, now.wrapping_sub(d(&mut r)), now.wrapping_add(d(&mut r)))
+            };
+            idx += 1; if !out.wants(idx) { continue; }
+            let c = format!("sigtime {} {} {}", now, inc, exp);
+            let (t, i2, e) = (Timestamp::from(now), Timestamp::from(inc), Timestamp::from(exp));
+            let ok = t <= e && t >= i2;
+            out.case(&c, if ok { "true" } else { "false" }, ok, "sig_time");
+            out.check(ok == rfc1982_valid(now, inc, exp), "sig_time_not_rfc1982", &c, &format!("got {}", ok));
+        }
+        // the same through the validator with the wall clock: an RRset signed with the given window
+        let w = world.clone();
+        let kz = w.zones[2].key.as_ref().unwrap();
+        let vc = ValidationContext::new(w.anchors(), Mock::new(w.clone(), quiet.clone()));
+        for i in 0..(40 * scale) {
+            let now = now_u32();
+            let (inc, exp) = match i % 10 { 0 => (now - 300, now + 300), 1 => (now - 300, now.wrapping_add(0x8000_1000)), 2 => (0, 0xFFFF_FFFF), 3 => (now.wrapping_add(0x8000_1000), now + 300),
+                4 => (now - 7200, now - 600), 5 => (now + 600, now + 7200), 6 => (now.wrapping_sub(0x7FFF_0000), now.wrapping_add(0x7FFF_0000)), 7 => (now - 300, now.wrapping_add(0x7FFF_F000)),
+                8 => (now.wrapping_sub(r.below(0x7000_0000) as u32 + 100), now.wrapping_add(r.below(0x7000_0000) as u32 + 100)), _ => (r.u32(), r.u32()) };
+            // keep the bounds away from the clock and from the undefined distance: the clock ticks between signing and checking
+            let near = |x: u32| { let d = x.wrapping_sub(now); d < 30 || d > 0xFFFF_FFE0 || (d > 0x7FFF_FFE0 && d < 0x8000_0020) };
+            if near(inc) || near(exp) { continue; }
+            let owner = nm(&format!("t{}.zone.sec.", i));
+            let rrs = vec![rec(&owner, 300, a([192, 0, 2, 40]))];
+            let sig = sign_with(kz, &kz.zone, &rrs, 3, inc, exp);
+            let resp = Resp { rcode: Rcode::NOERROR, answer: vec![RRset { rrs, sigs: vec![sig] }], authority: vec![] };
+            idx += 1; if !out.wants(idx) { continue; }
+            let c = format!("sigtime {} {} {}", now, inc, exp);
+            out.begin(&c);
+            let mut m = build_msg(6, &owner, Rtype::A, &resp);
+            match catch_mut(|| rt.block_on(async { vc.validate_msg(&mut m).await })) {
+                Err(p) => { out.case(&c, "Panic", true, "sig_time_e2e"); out.check(false, "panic_validator", &c, &p); }
+                Ok(Err(e)) => out.case(&c, &format!("Error {}", e), true, "sig_time_e2e"),
+                Ok(Ok((s, _))) => {
+                    let ok = s == ValidationState::Secure;
+                    out.case(&c, if ok { "true" } else { "false" }, ok, "sig_time_e2e");
+                    out.check(ok == rfc1982_valid(now, inc, exp), "sig_time_not_rfc1982", &c, &format!("verdict {} for a signature valid from {} to {} at {}", st(s), inc, exp, now));
+                }
+            }
+        }
+    }
+
+    // ---------------- (3d) the NSEC3 helpers called directly on really validated groups
+    {
+        let w = world.clone();
+        let vc = ValidationContext::new(w.anchors(), Mock::new(w.clone(), quiet.clone()));
+        let vcfg = domain::dnssec::validator::context::Config::new();
+        let hash = |n: &N, it: u16, salt: &[u8]| -> Vec<u8> {
+            let s = Nsec3Salt::<Bytes>::from_octets(Bytes::copy_from_slice(salt)).unwrap();
+            let h: OwnerHash<Vec<u8>> = domain::dnssec::common::nsec3_hash(n, Nsec3HashAlgorithm::SHA1, it, &s).unwrap();
+            h.as_slice().to_vec()
+        };
+        let b32 = |h: &[u8]| domain::utils::base32::encode_string_hex(h).to_ascii_lowercase().into_bytes();
+        let mut unis: Vec<Vec<N>> = vec![];
+        for zi in [0usize, 1] {
+            let apex = w.zones[zi].apex.clone();
+            let mut u = vec![apex.clone()];
+            for _ in 0..10 { u.push(rel_name(&mut r, &apex, 2)); }
+            if let Some(s) = star(&apex) { u.push(s); }
+            unis.push(u);
+        }
+        for _ in 0..(900 * scale) {
+            let zi = if r.chance(1, 2) { 0 } else { 1 };
+            let uni = unis[zi].clone();
+            let z = &w.zones[zi];
+            let key = z.key.as_ref().unwrap();
+            let apex = z.apex.clone();
+            // limits: the defaults, or small ones so that the over-limit branches are cheap to reach
+            let mut cfg = domain::dnssec::validator::context::Config::new();
+            let (ci, cb) = if r.chance(1, 2) { (100u16, 500u16) } else { let a1 = r.below(4) as u16; let b1 = r.below(5) as u16; cfg.set_nsec3_iter_insecure(a1); cfg.set_nsec3_iter_bogus(b1); (a1, b1) };
+            let it0 = *r.pick(&[0u16, 0, 1, 2, 3]);
+            let salt0: Vec<u8> = if r.chance(1, 2) { vec![] } else { vec![0xab, 0xcd] };
+            // a real chain over some names of the zone
+            let mut names: Vec<N> = vec![apex.clone()];
+            for _ in 0..(1 + r.below(5)) { let n = r.pick(&uni).clone(); if !names.iter().any(|x| rfc_eq(x, &n)) { names.push(n); } }
+            let mut hs: Vec<(Vec<u8>, N)> = names.iter().map(|n| (hash(n, it0, &salt0), n.clone())).collect();
+            hs.sort();
+            let mut sets: Vec<RRset> = vec![];
+            for i in 0..hs.len() {
+                if r.chance(1, 5) { continue; } // an incomplete chain
+                let mut it = it0; let mut salt = salt0.clone(); let mut alg = 1u8;
+                let mut label = b32(&hs[i].0);
+                let mut next = hs[(i + 1) % hs.len()].0.clone();
+                let types: Vec<Rtype> = TYPESET.iter().filter(|_| r.chance(1, 4)).cloned().collect();
+                let flags = if r.chance(1, 6) { 1u8 } else if r.chance(1, 20) { 0x80 } else { 0 };
+                match r.below(40) {
+                    0 => it = it0 + 1 + r.below(3) as u16, 1 => salt = vec![1], 2 => alg = 2, 3 => label = b"zzzz".to_vec(), 4 => label = vec![0xff, 0xfe],
+                    5 => label = b"00".to_vec(), 6 => next = r.bytes(20), 7 => next = r.bytes(8), 8 => label = b32(&r.bytes(20)), 9 => label = b32(&hs[i].0).to_ascii_uppercase(),
+                    _ => {}
+                }
+                let mut l = vec![label]; l.extend(labels_of(&apex));
+                let Some(owner) = name_from_labels(&l) else { continue; };
+                if sets.iter().any(|x| rfc_eq(x.rrs[0].owner(), &owner)) { continue; }
+                let d = Nsec3::new(Nsec3HashAlgorithm::from_int(alg), flags, it, Nsec3Salt::<Bytes>::from_octets(Bytes::from(salt)).unwrap(), OwnerHash::from_octets(Bytes::from(next)).unwrap(), bitmap(&types));
+                let n3rec = rec(&owner, 300, ZD::Nsec3(d));
+                let set = match r.below(30) {
+                    0 => RRset { sigs: vec![], rrs: vec![n3rec] },
+                    1 => RRset { sigs: vec![sign(key, &[rec(&owner, 300, a([1, 1, 1, 1]))])], rrs: vec![n3rec] },
+                    2 => { let k2 = w.zones[if zi == 0 { 0 } else { zi - 1 }].key.as_ref().unwrap(); RRset { sigs: vec![sign(k2, &[n3rec.clone()])], rrs: vec![n3rec] } }
+                    3 => { let v = vec![rec(&owner, 300, a([192, 0, 2, 201]))]; RRset { sigs: vec![sign(key, &v)], rrs: v } }
+                    4 => { let d2 = Nsec3::new(Nsec3HashAlgorithm::SHA1, 0, 0, Nsec3Salt::<Bytes>::empty(), OwnerHash::from_octets(Bytes::from(r.bytes(20))).unwrap(), bitmap(&[Rtype::A])); let v = vec![n3rec, rec(&owner, 300, ZD::Nsec3(d2))]; RRset { sigs: vec![sign(key, &v)], rrs: v } }
+                    _ => RRset { sigs: vec![sign(key, &[n3rec.clone()])], rrs: vec![n3rec] },
+                };
+                sets.push(set);
+            }
+            if sets.is_empty() { continue; }
+            for i in (1..sets.len()).rev() { let j = r.below(i as u64 + 1) as usize; sets.swap(i, j); }
+            let msg = build_msg(5, &nm("q."), Rtype::A, &Resp { rcode: Rcode::NOERROR, answer: sets, authority: vec![] });
+            let mut gs = vh::GroupSet::new();
+            for rr in msg.answer().unwrap() { gs.add(rr.unwrap()).unwrap(); }
+            let raw: Vec<vh::Group> = gs.iter().cloned().collect();
+            let mut groups: Vec<vh::ValidatedGroup> = vec![];
+            for g in raw { if let Ok(vg) = rt.block_on(g.validated::<Vec<u8>, Mock>(&vc, &vcfg)) { groups.push(vg); } }
+            // the view of the groups, read through the accessors
+            let mut params: Vec<(u16, Vec<u8>)> = vec![];
+            let gw: Vec<String> = groups.iter().map(|g| {
+                let rrs = g.rr_set();
+                let first: Vec<u8> = g.owner().first().as_slice().to_vec();
+                match rrs.first().map(|x| x.data()) {
+                    Some(AllRecordData::Nsec3(n)) => {
+                        let salt = n.salt().as_slice().to_vec();
+                        if !params.contains(&(n.iterations(), salt.clone())) { params.push((n.iterations(), salt.clone())); }
+                        let mut ts: Vec<u16> = n.types().iter().map(|t| t.to_int()).collect(); ts.sort();
+                        let tsw = if ts.is_empty() { "-".to_string() } else { ts.iter().map(|t| t.to_string()).collect::<Vec<_>>().join(",") };
+                        format!("{} 1 {} {} {} {} {} {} {} {} {}", rrs.len(), (g.state() == ValidationState::Secure) as u8, nhex(&g.signer_name()), n.hash_algorithm().to_int(),
+                            n.opt_out() as u8, n.iterations(), hex(&salt), hex(&first), hex(n.next_owner().as_slice()), tsw)
+                    }
+                    _ => format!("{} 0 {} {} 0 0 0 - {} - -", rrs.len(), (g.state() == ValidationState::Secure) as u8, nhex(&g.signer_name()), hex(&first)),
+                }
+            }).collect();
+            let gwords = gw.join(" ");
+            let cache = vh::Nsec3Cache::new(100);
+            for _ in 0..2 {
+                let base = r.pick(&uni).clone();
+                let mut l = labels_of(&base);
+                match r.below(6) { 0 | 1 => {} 2 | 3 => l.insert(0, r.pick(LABS).to_vec()), 4 => { l.insert(0, r.pick(LABS).to_vec()); l.insert(0, r.pick(LABS).to_vec()); } _ => { l = labels_of(&names[r.below(names.len() as u64) as usize]); if r.chance(1, 2) { l.insert(0, b"x".to_vec()); } } }
+                let Some(mut target) = name_from_labels(&l) else { continue; };
+                if r.chance(1, 8) { target = flip_case(&mut r, &target); }
+                let signer = match r.below(12) { 0 => flip_case(&mut r, &apex), 1 => nm("other.sec."), _ => apex.clone() };
+                let qt = *r.pick(QTYPES);
+                // hash table for the model: every suffix of the target and the wildcard at each, per parameter set within the limits
+                let mut tnames: Vec<N> = vec![];
+                { let tl = labels_of(&target); for k in 0..=tl.len() { let sfx = name_from_labels(&tl[k..]).unwrap(); if let Some(st) = star(&sfx) { tnames.push(st); } tnames.push(sfx); } }
+                let mut tbl: Vec<String> = vec![];
+                for (it, salt) in &params { if *it > ci.max(cb) + 4 { continue; } for n in &tnames { tbl.push(format!("{}:{}:{}:{}", it, hex(salt), nhex(n), hex(&hash(n, *it, salt)))); } }
+                let tblw = if tbl.is_empty() { "-".to_string() } else { tbl.join(",") };
+                let pre = |f: &str| format!("n3 {} {} {} {} {} {} {} {}", f, nhex(&target), qt.to_int(), nhex(&signer), ci, cb, tblw, gwords);
+                let nx3 = |s: &vh::Nsec3NXState| match s { vh::Nsec3NXState::DoesNotExist(ce) => format!("DNE {}", nhex(ce)), vh::Nsec3NXState::DoesNotExistInsecure(ce) => format!("DNEI {}", nhex(ce)),
+                    vh::Nsec3NXState::Bogus => "Bogus".to_string(), vh::Nsec3NXState::Insecure => "Insecure".to_string(), vh::Nsec3NXState::Nothing => "Nothing".to_string() };
+                let st3 = |s: &vh::Nsec3State| match s { vh::Nsec3State::NoData => "NoData", vh::Nsec3State::NoDataInsecure => "NoDataInsecure", vh::Nsec3State::Bogus => "Bogus", vh::Nsec3State::Nothing => "Nothing" };
+                idx += 1;
+                if out.wants(idx) {
+                    let c = pre("notex"); out.begin(&c);
+                    match catch_mut(|| rt.block_on(vh::nsec3_for_not_exists(&target, &mut groups, &signer, &cache, &cfg))) {
+                        Ok((s, e)) => {
+                            out.case(&c, &format!("{} {}", nx3(&s), ede_code(&e)), matches!(s, vh::Nsec3NXState::DoesNotExist(_) | vh::Nsec3NXState::DoesNotExistInsecure(_)), "nsec3_for_not_exists");
+                            if let vh::Nsec3NXState::DoesNotExist(ce) | vh::Nsec3NXState::DoesNotExistInsecure(ce) = &s {
+                                out.check(is_suffix(ce, &target) && !rfc_eq(ce, &target) && is_suffix(&signer, ce), "nsec3_closest_encloser_not_proper_suffix", &c, &format!("ce {}", ce));
+                            }
+                        }
+                        Err(p) => { out.case(&c, "Panic", true, "nsec3_for_not_exists"); out.check(false, "panic_validator", &c, &p); }
+                    }
+                }
+                idx += 1;
+                if out.wants(idx) {
+                    let c = pre("noce"); out.begin(&c);
+                    match catch_mut(|| rt.block_on(vh::nsec3_for_not_exists_no_ce(&target, &mut groups, &signer, &cache, &cfg))) {
+                        Ok((s, e)) => { let w2 = match s { vh::Nsec3NXStateNoCE::DoesNotExist => "DNE", vh::Nsec3NXStateNoCE::DoesNotExistInsecure => "DNEI", vh::Nsec3NXStateNoCE::Nothing => "Nothing", vh::Nsec3NXStateNoCE::Bogus => "Bogus" };
+                            out.case(&c, &format!("{} {}", w2, ede_code(&e)), w2 == "DNE", "nsec3_for_not_exists_no_ce"); }
+                        Err(p) => { out.case(&c, "Panic", true, "nsec3_for_not_exists_no_ce"); out.check(false, "panic_validator", &c, &p); }
+                    }
+                }
+                idx += 1;
+                if out.wants(idx) {
+                    let c = pre("nodata"); out.begin(&c);
+                    match catch_mut(|| rt.block_on(vh::nsec3_for_nodata(&target, &mut groups, qt, &signer, &cache, &cfg))) {
+                        Ok((s, e)) => out.case(&c, &format!("{} {}", st3(&s), ede_code(&e)), matches!(s, vh::Nsec3State::NoData), "nsec3_for_nodata"),
+                        Err(p) => { out.case(&c, "Panic", true, "nsec3_for_nodata"); out.check(false, "panic_validator", &c, &p); }
+                    }
+                }
+                idx += 1;
+                if out.wants(idx) {
+                    let c = pre("nxdom"); out.begin(&c);
+                    match catch_mut(|| rt.block_on(vh::nsec3_for_nxdomain(&target, &mut groups, &signer, &cache, &cfg))) {
+                        Ok((s, e)) => out.case(&c, &format!("{} {}", nx3(&s), ede_code(&e)), matches!(s, vh::Nsec3NXState::DoesNotExist(_)), "nsec3_for_nxdomain"),
+                        Err(p) => { out.case(&c, "Panic", true, "nsec3_for_nxdomain"); out.check(false, "panic_validator", &c, &p); }
+                    }
+                }
+                idx += 1;
+                if out.wants(idx) {
+                    let c = pre("ndwild"); out.begin(&c);
+                    match catch_mut(|| rt.block_on(vh::nsec3_for_nodata_wildcard(&target, &mut groups, qt, &signer, &cache, &cfg))) {
+                        Ok((s, e)) => out.case(&c, &format!("{} {}", st3(&s), ede_code(&e)), matches!(s, vh::Nsec3State::NoData), "nsec3_for_nodata_wildcard"),
+                        Err(p) => { out.case(&c, "Panic", true, "nsec3_for_nodata_wildcard"); out.check(false, "panic_validator", &c, &p); }
+                    }
+                }
+            }
+        }
+    }
+
+    // ---------------- (3e) the DS -> DNSKEY step: generated DS and DNSKEY RRsets for zone.sec.
+    {
+        let w = world.clone();
+        let z = &w.zones[2];
+        let parent = w.zones[1].key.as_ref().unwrap();
+        let extra = [gen_key_flags(&z.apex, 256), gen_key_flags(&z.apex, 257)];
+        let all: Vec<&ZKey> = vec![z.key.as_ref().unwrap(), &extra[0], &extra[1]];
+        let dk = |k: &ZKey| rec(&k.zone, 300, ZD::Dnskey(k.dnskey.clone()));
+        let dig = |k: &ZKey, dt: DigestAlgorithm| -> Vec<u8> { k.dnskey.digest(&k.zone, dt).unwrap().as_ref().to_vec() };
+        let www = nm("www.zone.sec.");
+        for _ in 0..(250 * scale) {
+            // the DNSKEY RRset
+            let mut set: Vec<usize> = (0..3).filter(|_| r.chance(2, 3)).collect();
+            if set.is_empty() { set.push(r.below(3) as usize); }
+            for i in (1..set.len()).rev() { let j = r.below(i as u64 + 1) as usize; set.swap(i, j); }
+            let keyset: Vec<Rec> = set.iter().map(|i| dk(all[*i])).collect();
+            // the DS RRset of the parent
+            let mut dsw: Vec<String> = vec![]; let mut dsrecs: Vec<Rec> = vec![];
+            for _ in 0..(1 + r.below(3)) {
+                let k = all[r.below(3) as usize];
+                let dt = *r.pick(&[DigestAlgorithm::SHA256, DigestAlgorithm::SHA256, DigestAlgorithm::SHA1, DigestAlgorithm::SHA384]);
+                let (alg, tag, dtn, d): (u8, u16, u8, Vec<u8>) = match r.below(8) {
+                    0 => { let mut d = dig(k, dt); d[3] ^= 1; (13, k.tag, dt.to_int(), d) }          // right key tag, other digest
+                    1 => (15, k.tag, dt.to_int(), dig(k, dt)),                                        // algorithm the validator does not support
+                    2 => (13, k.tag, 3, r.bytes(32)),                                                 // digest type it does not support
+                    3 => (13, k.tag ^ 1, dt.to_int(), dig(k, dt)),                                    // other key tag
+                    _ => (13, k.tag, dt.to_int(), dig(k, dt)),
+                };
+                let rr = rec(&z.apex, 300, ZD::Ds(Ds::new(tag, SecurityAlgorithm::from_int(alg), DigestAlgorithm::from_int(dtn), Bytes::from(d.clone())).unwrap()));
+                if dsrecs.iter().any(|x| x.data() == rr.data()) { continue; }
+                dsw.push(format!("{} {} {} {}", alg, tag, dtn, hex(&d))); dsrecs.push(rr);
+            }
+            // signatures over the DNSKEY RRset
+            let mut sgw: Vec<String> = vec![]; let mut sgrecs: Vec<Rec> = vec![];
+            for _ in 0..(1 + r.below(3)) {
+                let ki = r.below(3) as usize; let k = all[ki];
+                let good = r.chance(2, 3);
+                let sig = if good { sign(k, &keyset) } else { sign(k, &[dk(all[(ki + 1) % 3]), rec(&z.apex, 300, a([1, 2, 3, 4]))]) };
+                let sig = if good { sig } else { Record::new(z.apex.clone(), Class::IN, sig.ttl(), match sig.data() { ZD::Rrsig(g) => ZD::Rrsig(Rrsig::<Bytes, N>::new(Rtype::DNSKEY, g.algorithm(), g.labels(), g.original_ttl(), g.expiration(), g.inception(), g.key_tag(), g.signer_name().clone(), g.signature().clone()).unwrap()), d => d.clone() }) };
+                if sgrecs.iter().any(|x| x.data() == sig.data()) { continue; }
+                let valid: Vec<String> = if good { set.iter().enumerate().filter(|(_, i)| **i == ki).map(|(p, _)| p.to_string()).collect() } else { vec![] };
+                sgw.push(format!("{} {}", k.tag, if valid.is_empty() { "-".to_string() } else { valid.join(",") }));
+                sgrecs.push(sig);
+            }
+            // GroupSet sorts nothing: the validator sees the records in message order
+            let kw: Vec<String> = set.iter().map(|i| { let k = all[*i]; format!("13 {} {} {} {}", k.tag, hex(&dig(k, DigestAlgorithm::SHA1)), hex(&dig(k, DigestAlgorithm::SHA256)), hex(&dig(k, DigestAlgorithm::SHA384))) }).collect();
+            let ds_sig = sign(parent, &dsrecs);
+            let m_ds = build_msg(9, &z.apex, Rtype::DS, &Resp { rcode: Rcode::NOERROR, answer: vec![RRset { rrs: dsrecs.clone(), sigs: vec![ds_sig] }], authority: vec![] });
+            let m_key = build_msg(9, &z.apex, Rtype::DNSKEY, &Resp { rcode: Rcode::NOERROR, answer: vec![RRset { rrs: keyset.clone(), sigs: sgrecs.clone() }], authority: vec![] });
+            let sc = Script { attack: Attack::None, on_query: 0, pick: 0, raw: vec![(z.apex.clone(), Rtype::DS.to_int(), m_ds), (z.apex.clone(), Rtype::DNSKEY.to_int(), m_key)] };
+            let vc = ValidationContext::new(w.anchors(), Mock::new(w.clone(), sc));
+            let data = vec![rec(&www, 300, a([192, 0, 2, 1]))];
+            let resp = Resp { rcode: Rcode::NOERROR, answer: vec![RRset { sigs: vec![sign(all[set[0]], &data)], rrs: data }], authority: vec![] };
+            idx += 1; if !out.wants(idx) { continue; }
+            let c = format!("child 1 {} {} {} {} {} {}", dsw.len(), kw.len(), sgw.len(), dsw.join(" "), kw.join(" "), sgw.join(" "));
+            out.begin(&c);
+            let mut m = build_msg(12, &www, Rtype::A, &resp);
+            match catch_mut(|| rt.block_on(async { vc.validate_msg(&mut m).await })) {
+                Err(p) => { out.case(&c, "Panic", true, "ds_dnskey_step"); out.check(false, "panic_validator", &c, &p); }
+                Ok(Err(e)) => out.case(&c, &format!("Error {}", e), true, "ds_dnskey_step"),
+                Ok(Ok((s, _))) => {
+                    out.case(&c, st(s), s == ValidationState::Secure, "ds_dnskey_step");
+                    // the property itself: secure needs a supported DS whose digest matches a key of the set that made a valid signature over the set
+                    let vouched = dsw.iter().any(|d| { let f: Vec<&str> = d.split(' ').collect(); f[0] == "13" && f[2] != "3" &&
+                        set.iter().enumerate().any(|(p, i)| { let k = all[*i]; f[1] == k.tag.to_string() && f[3] == hex(&dig(k, DigestAlgorithm::from_int(f[2].parse().unwrap())))
+                            && sgw.iter().any(|sg| { let g: Vec<&str> = sg.split(' ').collect(); g[1].split(',').any(|x| x == p.to_string()) }) }) });
+                    out.check(!(s == ValidationState::Secure && !vouched), "secure_dnskey_not_signed_by_ds_key", &c, "secure without a DS-vouched key having signed the DNSKEY RRset");
+                    let any_supported = dsw.iter().any(|d| { let f: Vec<&str> = d.split(' ').collect(); f[0] == "13" && f[2] != "3" });
+                    out.check((s == ValidationState::Insecure) == !any_supported, if any_supported { "secure_delegation_reported_insecure" } else { "insecure_reported_bogus" }, &c, st(s));
+                }
+            }
+        }
+    }
+
+    // ---------------- (3f) the insecure-delegation decision: DS replies for kid.sec. with generated NSEC / NSEC3 proofs
+    {
+        let w = world.clone();
+        let parent = w.zones[1].key.as_ref().unwrap();
+        let papex = w.zones[1].apex.clone();
+        let kid = nm("kid.sec.");
+        let hash = |n: &N, it: u16, salt: &[u8]| -> Vec<u8> {
+            let s = Nsec3Salt::<Bytes>::from_octets(Bytes::copy_from_slice(salt)).unwrap();
+            let h: OwnerHash<Vec<u8>> = domain::dnssec::common::nsec3_hash(n, Nsec3HashAlgorithm::SHA1, it, &s).unwrap();
+            h.as_slice().to_vec()
+        };
+        let b32 = |h: &[u8]| domain::utils::base32::encode_string_hex(h).to_ascii_lowercase().into_bytes();
+        let bump = |h: &[u8], up: bool| { let mut v = h.to_vec(); let k = v.len() - 1; v[k] = if up { v[k].wrapping_add(3) } else { v[k].wrapping_sub(3) }; if up && v[k] < 3 { v[k - 1] = v[k - 1].wrapping_add(1); } if !up && v[k] > 252 { v[k - 1] = v[k - 1].wrapping_sub(1); } v };
+        let now = now_u32();
+        for _ in 0..(600 * scale) {
+            let mut cfg = domain::dnssec::validator::context::Config::new();
+            let (ci, cb) = if r.chance(1, 2) { (100u16, 500u16) } else { let a1 = r.below(4) as u16; let b1 = r.below(5) as u16; cfg.set_nsec3_iter_insecure(a1); cfg.set_nsec3_iter_bogus(b1); (a1, b1) };
+            let target = if r.chance(1, 8) { nm("KID.sec.") } else { kid.clone() };
+            let mut sets: Vec<RRset> = vec![]; let mut words: Vec<String> = vec![]; let mut params: Vec<(u16, Vec<u8>)> = vec![];
+            for _ in 0..(1 + r.below(3)) {
+                let is3 = r.chance(1, 2);
+                let valid_kind = r.below(10); // 0: bad signature, 1: expired, else valid
+                let mut ce: Option<N> = None;
+                let (rrs, w0): (Vec<Rec>, String) = if !is3 {
+                    let (owner, next) = match r.below(8) { 0 | 1 | 2 | 3 => (kid.clone(), nm("l.sec.")), 4 => (nm("a.sec."), nm("x.kid.sec.")), 5 => (papex.clone(), nm("x.kid.sec.")), 6 => (papex.clone(), nm("a.sec.")), _ => (nm("b.sec."), nm("c.sec.")) };
+                    let types: Vec<Rtype> = match r.below(8) { 0 | 1 => vec![Rtype::NS, Rtype::RRSIG, Rtype::NSEC], 2 => vec![Rtype::NS, Rtype::DS, Rtype::RRSIG, Rtype::NSEC], 3 => vec![Rtype::NS, Rtype::SOA, Rtype::RRSIG, Rtype::NSEC],
+                        4 => vec![Rtype::A, Rtype::RRSIG, Rtype::NSEC], 5 => vec![Rtype::DNAME, Rtype::RRSIG, Rtype::NSEC], _ => TYPESET.iter().filter(|_| r.chance(1, 3)).cloned().collect() };
+                    let mut tl: Vec<u16> = types.iter().map(|t| t.to_int()).collect(); tl.sort(); tl.dedup();
+                    let tw = if tl.is_empty() { "-".to_string() } else { tl.iter().map(|t| t.to_string()).collect::<Vec<_>>().join(",") };
+                    (vec![nsec_rec(&owner, &next, &types, 300)], format!("47 {} V C {} {} 0 0 0 - -", nhex(&owner), nhex(&next), tw))
+                } else {
+                    let it = *r.pick(&[0u16, 0, 1, 2, 3, 5]); let salt: Vec<u8> = if r.chance(1, 2) { vec![] } else { vec![0x5a] };
+                    let h = hash(&kid, it, &salt);
+                    let (label, next): (Vec<u8>, Vec<u8>) = match r.below(9) { 0 | 1 | 2 => (b32(&h), r.bytes(20)), 3 => (b32(&h).to_ascii_uppercase(), r.bytes(20)), 4 | 5 => (b32(&bump(&h, false)), bump(&h, true)),
+                        6 => (b32(&bump(&h, true)), bump(&h, false)), 7 => (b"zzzz".to_vec(), r.bytes(20)), _ => (b32(&r.bytes(20)), r.bytes(20)) };
+                    let zone_of = if r.chance(1, 10) { nm("x.sec.") } else { papex.clone() };
+                    let mut l = vec![label]; l.extend(labels_of(&zone_of));
+                    let owner = name_from_labels(&l).unwrap();
+                    let alg = if r.chance(1, 12) { 2u8 } else { 1 };
+                    let oo = r.chance(1, 2);
+                    let types: Vec<Rtype> = match r.below(6) { 0 | 1 => vec![Rtype::NS], 2 => vec![Rtype::NS, Rtype::DS], 3 => vec![Rtype::NS, Rtype::SOA], 4 => vec![Rtype::A], _ => TYPESET.iter().filter(|_| r.chance(1, 3)).cloned().collect() };
+                    let mut tl: Vec<u16> = types.iter().map(|t| t.to_int()).collect(); tl.sort(); tl.dedup();
+                    let tw = if tl.is_empty() { "-".to_string() } else { tl.iter().map(|t| t.to_string()).collect::<Vec<_>>().join(",") };
+                    if !params.contains(&(it, salt.clone())) { params.push((it, salt.clone())); }
+                    let d = Nsec3::new(Nsec3HashAlgorithm::from_int(alg), oo as u8, it, Nsec3Salt::<Bytes>::from_octets(Bytes::from(salt.clone())).unwrap(), OwnerHash::from_octets(Bytes::from(next.clone())).unwrap(), bitmap(&types));
+                    (vec![rec(&owner, 300, ZD::Nsec3(d))], format!("50 {} V C 00 {} {} {} {} {} {}", nhex(&owner), tw, alg, oo as u8, it, hex(&salt), hex(&next)))
+                };
+                if sets.iter().any(|x| rfc_eq(x.rrs[0].owner(), rrs[0].owner()) && x.rrs[0].rtype() == rrs[0].rtype()) { continue; }
+                let ol = labels_of(rrs[0].owner()).len() as u8;
+                let labels = if r.chance(1, 8) && ol > 1 { ol - 1 } else { nlabels(rrs[0].owner()) };
+                if labels < ol { let l = labels_of(rrs[0].owner()); ce = name_from_labels(&l[(ol - labels) as usize..]); }
+                let (sig, valid) = match valid_kind {
+                    0 => (sign_with(parent, &parent.zone, &[rec(rrs[0].owner(), 300, a([7, 7, 7, 7]))], labels, now - 60, now + 3600), false),
+                    1 => (sign_with(parent, &parent.zone, &rrs, labels, now - 7200, now - 3600), false),
+                    _ => (sign_with(parent, &parent.zone, &rrs, labels, now - 60, now + 3600), true),
+                };
+                let sig = if valid_kind == 0 { Record::new(rrs[0].owner().clone(), Class::IN, sig.ttl(), match sig.data() { ZD::Rrsig(g) => ZD::Rrsig(Rrsig::<Bytes, N>::new(rrs[0].rtype(), g.algorithm(), g.labels(), g.original_ttl(), g.expiration(), g.inception(), g.key_tag(), g.signer_name().clone(), g.signature().clone()).unwrap()), d => d.clone() }) } else { sig };
+                words.push(w0.replace(" V ", &format!(" {} ", valid as u8)).replace(" C ", &format!(" {} ", ce.as_ref().map(|c| nhex(c)).unwrap_or("-".into()))));
+                sets.push(RRset { rrs, sigs: vec![sig] });
+            }
+            if sets.is_empty() { continue; }
+            let mut auth = vec![{ let x = w.zones[1].get(&papex, Rtype::SOA).unwrap(); RRset { rrs: x.0, sigs: x.1.into_iter().collect() } }];
+            auth.extend(sets);
+            let m_ds = build_msg(9, &kid, Rtype::DS, &Resp { rcode: Rcode::NOERROR, answer: vec![], authority: auth });
+            let sc = Script { attack: Attack::None, on_query: 0, pick: 0, raw: vec![(kid.clone(), Rtype::DS.to_int(), m_ds)] };
+            let vc = ValidationContext::with_config(w.anchors(), Mock::new(w.clone(), sc), cfg);
+            let tbl: Vec<String> = params.iter().filter(|(it, _)| *it <= ci.max(cb) + 6).map(|(it, salt)| format!("{}:{}:{}:{}", it, hex(salt), nhex(&target), hex(&hash(&target, *it, salt)))).collect();
+            idx += 1; if !out.wants(idx) { continue; }
+            let c = format!("dsproof {} {} {} {} {}", nhex(&target), ci, cb, if tbl.is_empty() { "-".to_string() } else { tbl.join(",") }, words.join(" "));
+            out.begin(&c);
+            let resp = Resp { rcode: Rcode::NOERROR, answer: vec![RRset { rrs: vec![rec(&target, 300, a([198, 51, 100, 9]))], sigs: vec![] }], authority: vec![] };
+            let mut m = build_msg(13, &target, Rtype::A, &resp);
+            match catch_mut(|| rt.block_on(async { vc.validate_msg(&mut m).await })) {
+                Err(p) => { out.case(&c, "Panic", true, "no_ds_decision"); out.check(false, "panic_validator", &c, &p); }
+                Ok(Err(e)) => out.case(&c, &format!("Error {}", e), true, "no_ds_decision"),
+                Ok(Ok((s, _))) => {
+                    out.case(&c, st(s), s == ValidationState::Insecure, "no_ds_decision");
+                    out.check(s != ValidationState::Secure, "secure_without_chain", &c, "unsigned data reported secure");
+                    // insecure needs a validly signed record among those sent
+                    let any_valid = words.iter().any(|x| x.split(' ').nth(2) == Some("1"));
+                    out.check(!(s == ValidationState::Insecure && !any_valid), "insecure_without_no_ds_proof", &c, "delegation declared insecure although no record of the DS reply has a valid signature");
                 }
             }
         }
